@@ -1,9 +1,11 @@
 #!/bin/sh
+# usage: tools/runthorough.sh C01 C02 ...   -- thorough tiers one after the other on /repo as it is; evidence goes to scratch/thor_ev
+# (the committed evidence/<id>.json files are those of the quick tier)
 cd /verif
+mkdir -p scratch/thor_ev
 for c in "$@"; do
   S=$(date +%s)
-  timeout 3600 ./vcheck $c --tier thorough > scratch/thor_$c.out 2>&1; RC=$?
+  VERIF_EVIDENCE_DIR=/verif/scratch/thor_ev timeout 5400 ./vcheck $c --tier thorough > scratch/thor_$c.out 2>&1; RC=$?
   E=$(date +%s)
   echo "$c rc=$RC $(($E-$S))s $(grep -c KNOWN-FINDING scratch/thor_$c.out) known; $(grep -E 'tier=thorough' scratch/thor_$c.out | cut -c1-170)"
-  cp evidence/$c.json scratch/thor_evidence_$c.json 2>/dev/null
 done
